@@ -1,24 +1,24 @@
-\* two channels (compat surface), one id per channel, up to 1 unreported commit per channel:
-\* 66,564 distinct / 993,934 generated states, ~6 min with 4 workers on a loaded machine
+\* epoch history: one channel, compat surface, two epochs, one exact proposal, up to 2 unreported commits:
+\* 142,505 distinct / 2,007,441 generated states, depth 17, ~2.5 min with 6 workers on a loaded machine
 SPECIFICATION Spec9
 CONSTANTS
-  Chans = {"c1", "c2"}
+  Chans = {"c1"}
   Ids = {1, 2}
   Froms = {"u1"}
   Nos = {"n1"}
   Pays = {0}
   Surfaces = {"compat"}
-  MaxSeq = 1
+  MaxSeq = 2
   MaxBatch = 1
   MaxOpen = 1
   HWs = {1}
   Pids = {1}
-  MaxUnrep = 2
-  Epochs = {}
+  MaxUnrep = 3
+  Epochs = {1, 2}
   ProbeIds <- MCProbeIds
   ProbeFroms <- MCProbeFroms
   ProbeNos <- MCProbeNos
-  ChanSeq <- MCChanSeq2
+  ChanSeq <- MCChanSeq1
   KeepRmaxVariant = FALSE
 VIEW View9
 INVARIANTS TypeOK C07_IndexSound C08_KeyUnique C08_IdOnce C08_FilterCovers C09_EveryCrashImageSound C09_ViewIsNewest C09_WatermarkBelowLogEnd C09_LogEnd
